@@ -112,3 +112,38 @@ package set
 //@   ensures {C16} wrongtype: len(params.Command) >= 3 && old(tlive(params, tkey(params))) && !old(isset(tval(params, tkey(params)))) ==> result1 != nil && tval(params, tkey(params)) == old(tval(params, tkey(params)))
 //@   ensures {C16} added: result1 == nil && onset(params, tkey(params)) ==> tval(params, tkey(params)) == old(tval(params, tkey(params))) && (forall x string :: has(asset(tval(params, tkey(params))).members, x) <==> (old(has(asset(tval(params, tkey(params))).members, x)) || tnamed(params, x, 2))) && bstr(result0) == ":" ++ (itoa(len(asset(tval(params, tkey(params))).members) - old(len(asset(tval(params, tkey(params))).members))) ++ "\r\n")
 //@   ensures {C16,C20} others: tothers(params, tkey(params), tkey(params))
+
+// SREM key member [member ...]: the named members go; the reply is the number removed.
+//@ func handleSREM props C16,C12
+//@   requires generic.henv(params)
+//@   assumes own-cmd: len(params.Command) >= 2 ==> disjointarr(params.Command, $srv.keysWithExpiry.keys[dbof(params.Context)])
+//@   assumes stored-wf: len(params.Command) >= 2 && isset(tval(params, tkey(params))) ==> twf(asset(tval(params, tkey(params))))
+//@   ensures {C16} arity: len(params.Command) < 3 ==> result1 != nil
+//@   ensures {C16} absent: len(params.Command) >= 3 && !old(tlive(params, tkey(params))) ==> result1 == nil && bstr(result0) == ":0\r\n"
+//@   ensures {C16} wrongtype: len(params.Command) >= 3 && old(tlive(params, tkey(params))) && !old(isset(tval(params, tkey(params)))) ==> result1 != nil && tval(params, tkey(params)) == old(tval(params, tkey(params)))
+//@   ensures {C16} removed: len(params.Command) >= 3 && onset(params, tkey(params)) ==> result1 == nil && tval(params, tkey(params)) == old(tval(params, tkey(params))) && (forall x string :: has(asset(tval(params, tkey(params))).members, x) <==> (old(has(asset(tval(params, tkey(params))).members, x)) && !tnamed(params, x, 2))) && bstr(result0) == ":" ++ (itoa(old(len(asset(tval(params, tkey(params))).members)) - len(asset(tval(params, tkey(params))).members)) ++ "\r\n")
+//@   ensures {C16,C20} others: tpure(params)
+
+// SISMEMBER key member
+//@ func handleSISMEMBER props C16,C12,C13
+//@   requires generic.henv(params)
+//@   assumes own-cmd: len(params.Command) >= 2 ==> disjointarr(params.Command, $srv.keysWithExpiry.keys[dbof(params.Context)])
+//@   assumes stored-wf: len(params.Command) >= 2 && isset(tval(params, tkey(params))) ==> twf(asset(tval(params, tkey(params))))
+//@   ensures {C16} arity: len(params.Command) != 3 ==> result1 != nil
+//@   ensures {C16} absent: len(params.Command) == 3 && !old(tlive(params, tkey(params))) ==> result1 == nil && bstr(result0) == ":0\r\n"
+//@   ensures {C16} wrongtype: len(params.Command) == 3 && old(tlive(params, tkey(params))) && !old(isset(tval(params, tkey(params)))) ==> result1 != nil
+//@   ensures {C16} member: len(params.Command) == 3 && onset(params, tkey(params)) ==> result1 == nil && bstr(result0) == (old(has(asset(tval(params, tkey(params))).members, params.Command[2])) ? ":1\r\n" : ":0\r\n")
+//@   ensures {C13,C16} pure: tpure(params)
+//@   ensures {C13,C16} content: tsame(params, tkey(params))
+
+// SCARD key
+//@ func handleSCARD props C16,C12,C13
+//@   requires generic.henv(params)
+//@   assumes own-cmd: len(params.Command) >= 2 ==> disjointarr(params.Command, $srv.keysWithExpiry.keys[dbof(params.Context)])
+//@   assumes stored-wf: len(params.Command) >= 2 && isset(tval(params, tkey(params))) ==> twf(asset(tval(params, tkey(params))))
+//@   ensures {C16} arity: len(params.Command) != 2 ==> result1 != nil
+//@   ensures {C16} absent: len(params.Command) == 2 && !old(tlive(params, tkey(params))) ==> result1 == nil && bstr(result0) == ":0\r\n"
+//@   ensures {C16} wrongtype: len(params.Command) == 2 && old(tlive(params, tkey(params))) && !old(isset(tval(params, tkey(params)))) ==> result1 != nil
+//@   ensures {C16} card: len(params.Command) == 2 && onset(params, tkey(params)) ==> result1 == nil && bstr(result0) == ":" ++ (itoa(old(len(asset(tval(params, tkey(params))).members))) ++ "\r\n")
+//@   ensures {C13,C16} pure: tpure(params)
+//@   ensures {C13,C16} content: tsame(params, tkey(params))
